@@ -46,6 +46,32 @@ Definition rs_event (touch_moves : bool) (w : world) (rs : rstate) (e : event) :
   | _ => rs
   end.
 
+(* the tree with the atomic service (fixes/C08-atomic-client-runtime-state.diff) but WITHOUT the rebuild-over-tombstone follow-up:
+   a matched delete leaves a tombstone for tomb_ms, during which the heartbeat's rebuild (SetNX) fails; a login overwrites it.
+   tomb_ms = 0 is rs_event false (a deadline equal to "now" never blocks).  Used by Corr/C08.v with the probed tomb_ms. *)
+Definition rs_event_tomb (tomb_ms : N) (w : world) (st : rstate * (N -> option N)) (e : event) : rstate * (N -> option N) :=
+  let '(rs, tb) := st in
+  match e with
+  | AuthOK n c x => if negb (w_conns w n c) || (x =? 0) then st else (upd rs x (Some (n, c)), upd tb x None)
+  | Heartbeat n c =>
+      match w_ctl w n c with
+      | Some x => match rs x with
+                  | None => match tb x with
+                            | Some d => if w_now w <? d then st else (upd rs x (Some (n, c)), upd tb x None)
+                            | None => (upd rs x (Some (n, c)), tb)
+                            end
+                  | Some _ => st
+                  end
+      | None => st
+      end
+  | Close n c =>
+      match w_ctl w n c with
+      | Some x => if loc_eqb (rs x) n c then (upd rs x None, upd tb x (Some (w_now w + tomb_ms))) else st
+      | None => st
+      end
+  | _ => st
+  end.
+
 Definition rs_step (tm : bool) (v : variant) (b : backend) (ttl : N) (s : world * rstate) (e : event) : world * rstate :=
   (step v b ttl (fst s) e, rs_event tm (fst s) (snd s) e).
 
@@ -72,6 +98,8 @@ Definition tunnel_handshake_effect (pinned : bool) (rs : rstate) (x n c : N) : r
           EnsureClientOnline      up to 3 x [Get ; CompareAndSwap(read value -> touched value)], absent -> SetNX(rebuilt state)
           DisconnectClientIfMatch up to 3 x [Get ; CompareAndSwap(read value -> tombstone)] while the value read still matches
           ConnectClient           Get ; Set   (unchanged: a login overwrites unconditionally)
+        rot = true : additionally fixes/C08-rebuild-state-over-tombstone.diff: a SetNX that meets a tombstone is followed by
+                     CompareAndSwap(tombstone -> rebuilt state), so a tombstone behaves as "absent" for the rebuild too.
         tombstone = (0, 0, 0): reads as "absent", but the key exists (SetNX fails on it). ---- *)
 Definition rval := (N * N * N)%type.                 (* node, conn, version *)
 Record rshared := { rmap : N -> option rval; rnext : N }.
@@ -94,6 +122,7 @@ Inductive rprog :=
 | REnsureSet (x : N) (n c : N)                    (* cas = false: Set the touched value / the rebuilt state *)
 | REnsureCas (x n c : N) (a : rval) (i : nat)     (* cas = true: CompareAndSwap(a -> touched a) *)
 | REnsureNX (x n c : N)                           (* cas = true: SetNX(rebuilt state) *)
+| REnsureTomb (x n c : N)                         (* cas = true, rot = true: CompareAndSwap(tombstone -> rebuilt state) *)
 | RDisc (x n c : N) (i : nat)
 | RDiscDel (x : N)                                (* cas = false: DeleteState *)
 | RDiscCas (x n c : N) (a : rval) (i : nat)       (* cas = true: CompareAndSwap(a -> tombstone) *)
@@ -101,7 +130,7 @@ Inductive rprog :=
 
 Definition retries : nat := 3.
 
-Definition rstep (cas : bool) (lo : rprog) (sh : rshared) : rprog * rshared :=
+Definition rstep (cas rot : bool) (lo : rprog) (sh : rshared) : rprog * rshared :=
   match lo with
   | RConnect x n c => (RConnect2 x n c, sh)
   | RConnect2 x n c => (RDone, rwrite sh x n c)
@@ -114,7 +143,12 @@ Definition rstep (cas : bool) (lo : rprog) (sh : rshared) : rprog * rshared :=
   | REnsureCas x n c a i =>
       if holds_val sh x a then (RDone, rwrite sh x (fst (fst a)) (snd (fst a)))
       else (if Nat.ltb (S i) retries then REnsure x n c (S i) else RDone, sh)
-  | REnsureNX x n c => (RDone, match rmap sh x with None => rwrite sh x n c | Some _ => sh end)
+  | REnsureNX x n c =>
+      match rmap sh x with
+      | None => (RDone, rwrite sh x n c)
+      | Some a => (if rot && is_tomb a then REnsureTomb x n c else RDone, sh)
+      end
+  | REnsureTomb x n c => (RDone, if holds_val sh x tomb then rwrite sh x n c else sh)
   | RDisc x n c i =>
       (match live (rmap sh x) with
        | Some (n0, c0, v0) => if (n0 =? n) && (c0 =? c) then (if cas then RDiscCas x n c (n0, c0, v0) i else RDiscDel x) else RDone
@@ -127,8 +161,8 @@ Definition rstep (cas : bool) (lo : rprog) (sh : rshared) : rprog * rshared :=
   | RDone => (RDone, sh)
   end.
 
-Definition rrun (cas : bool) (s : Threads.st rshared rprog) (sched : list nat) : Threads.st rshared rprog :=
-  Threads.run rshared rprog (rstep cas) s sched.
+Definition rrun (cas rot : bool) (s : Threads.st rshared rprog) (sched : list nat) : Threads.st rshared rprog :=
+  Threads.run rshared rprog (rstep cas rot) s sched.
 Definition rs_old : rshared := rwrite rsh_empty 7 1 10.
 
 (* ---- "X's login (B, b) survives everything else" for the repaired service (cas = true) ---- *)
